@@ -267,6 +267,7 @@ def handleOp (st : St) (k : Nat) (op : String) (args : List String) : St × Stri
         a.set p true) abs
       fin (BV.extendPositions b ps) abs' true
     | "roundtrip", [] => fin (pure b) abs true      -- into BitVector and back / clone
+    | "shrink_to_fit", [] => fin (pure b) abs true
     | _, _ => (st, "bad-op")
   | .qv q abs =>
     match op, args with
@@ -501,13 +502,13 @@ def slotSpace (st : St) (k : Nat) : String :=
   match getSlot st k with
   | .qv q _ => Space.report (Space.qv q)
   | .rsq _ r _ => Space.report (Space.rsq r)
-  | .bv _ b _ => Space.report (Space.bv b)
+  | .bv mu b _ => if mu then "-" else Space.report (Space.bv b)
   | .rsn r _ => Space.report (Space.rsn r)
   | .rsw r _ => Space.report (Space.rsw r)
   | .da _ d _ => Space.report (Space.da d)
   | .qwt _ t _ => Space.report (Space.qwt t)
-  | .hqwt _ t _ _ => Space.report (Space.hqwt t)
-  | .wt _ comp t _ _ => Space.report (Space.wt comp t)
+  | .hqwt c t _ _ => Space.report (Space.hqwtW (wbytes c) t)
+  | .wt c comp t _ _ => Space.report (Space.wtW (wbytes c) comp t)
   | _ => "bad-slot"
 
 /-- `==` of two values of the same type: model = structural equality of the states,
